@@ -14,3 +14,11 @@ def guards_parser_rules(f):
 
 def guards_type_patcher(f):
     return (f.span.file or '') == 'slicec/src/patchers/type_ref_patcher.rs' and not f.generated
+
+
+def guards_preprocessor(f):
+    return (f.span.file or '') == 'slicec/src/parsers/preprocessor/grammar.rs' and not f.generated
+
+
+guards_preprocessor.all_returns = True
+guards_preprocessor.extra_calls = ('insert', 'remove', 'push', 'process_nodes', 'unwrap_or_default')
